@@ -383,7 +383,7 @@ func (c *Ctx) csvxRun() *simpleVerdict {
 
 func init() {
 	register(&Rule{ID: "CSV.roundtrip", Floor: 1,
-		Doc: "the CSV tokenizer evaluated abstractly (NewCsvTokenizer, SetFieldSeparators, SetQuoteSymbols, SetDecodeStrings, TokenizeBuffer) on tables written per the statement: 100 configurations (separator sets × quote sets × LF/CR/CRLF/LFCR) × every field over {letter, separators, quotes, LF, CR, non-Latin} up to length 2 paired with every single-character field, in three table shapes: the rows and fields come back exactly",
+		Doc: "the CSV tokenizer evaluated abstractly (NewCsvTokenizer, SetFieldSeparators, SetQuoteSymbols, SetDecodeStrings, TokenizeBuffer) on tables written per the statement: 104 configurations (separator sets × quote sets × LF/CR/CRLF/LFCR) × every field over {letter, separators, quotes, LF, CR, non-Latin} up to length 2 paired with every single-character field, in four table shapes, any configured separator between any two fields, format / zero-width characters at the edges of the first field, through every token-list and string-list entry point, on a fresh and on a reconfigured instance: the rows and fields come back exactly, and a kept token list still holds its table after later calls",
 		Run: func(c *Ctx) []*Obligation {
 			return emitSimple(c, "CSV.roundtrip", "csv.CsvTokenizer#table-roundtrip", c.Pos(c.MustFunc("csv", "", "NewCsvTokenizer").Pos()), c.csvxRun(), "tables round-trip")
 		}})
